@@ -354,13 +354,21 @@ func c16AssumeAssert(r *core.Run) {
 func runC16(r *core.Run) (bool, string) {
 	r.SetRule("strings: boundary values (10^k, 10^k±1, 9·10^k, 2^k, 2^k±1, repdigits, 0, MaxUint64) plus seeded random values with spread digit counts, each compared with a repeated-division decimal conversion and entered in a string→value map (injectivity over everything evaluated), distinct by value; " +
 		"MapClear: 8 key/value type combinations (incl. a named map type, struct/interface keys, pointer/slice values) × sizes {0,1,2,100,10000}, distinct by (type,size), plus a separate NaN-key atom; Assume/Assert: both functions × both arguments, repeated; " +
-		"WaitTimeout: schedules = class {none, signal-before, signal-during, signal-at-timeout, signal-after-timeout, broadcast-during with 1–4 waiters, storm} × {fresh Cond, Cond reused after 1–3 timed-out calls}, distinct by (class, state, timeout, waiters, earlier calls); lock state observed through a tracking sync.Locker given to sync.NewCond")
+		"WaitTimeout: schedules = class {none, signal-before, signal-during, signal-at-timeout, signal-after-timeout, broadcast-during with 1–4 waiters, storm} × {fresh Cond, Cond reused after 1–3 timed-out calls}, distinct by (class, state, timeout, waiters, earlier calls); lock state observed through a tracking sync.Locker given to sync.NewCond; " +
+		"class signal-held-across-expiry (waittimeout_hold_* keys): full grid timeout × (signaller takes the lock −20…+5 ms around the expiry) × (keeps it 0…40 ms after Signal/Broadcast) on fresh and reused Conds, run in child processes that contain no goroutine or timer besides caller, signaller and WaitTimeout's own; " +
+		"the call must return with the lock held; 'never returns' is decided only by the Go runtime's 'all goroutines are asleep - deadlock!' report of that process (a wall-clock watchdog only yields inconclusive); the observed position of the signaller's lock interval relative to the expiry is recorded per schedule")
 	r.Assume("the Go runtime's sync.Mutex, sync.Cond, timers and recover() behave as documented; a goroutine is identified by the id in runtime.Stack's header")
 	r.Assume("Δ = 2 s of slack absorbs scheduling latency on this machine (timeouts are ≤ 200 ms for the expiry clause and 60 s for the signal clause)")
 	c16Strings(r)
 	c16Maps(r)
 	c16AssumeAssert(r)
 	c16WaitTimeout(r)
+	if r.Replay == "" {
+		c16WaitTimeoutHold(r)
+		if r.NumViolations() == 0 && r.GetCount("waittimeout_hold_lock_observed_held_across_expiry_and_call_returned") < 5 {
+			return false, "fewer than 5 schedules in which the signaller was observed holding the lock across the expiry instant"
+		}
+	}
 	if r.Evals() < 10000 {
 		return false, "too few primitive calls evaluated"
 	}
